@@ -370,7 +370,8 @@ def r01_6(rep, M, rid):
             else:
                 rep.ok(rid, f"the zero test reads basis row `{idx}`, the same index as the periodicity flag")
     loops = [t for t, pol in conds if isinstance(t, ast.For) and pol is True]
-    guard_node = cfg.node_of[id(loops[0])] if loops else n
+    ifs0 = [t for t, pol in conds if isinstance(t, ast.If)]
+    guard_node = cfg.node_of[id(loops[0])] if loops else (cfg.node_of[id(ifs0[0])] if ifs0 else n)
     need = []
     for m, d in cfg.g.nodes(data=True):
         s = d["ast"]
@@ -729,6 +730,32 @@ def r01_14(rep, M, rid):
     from ..constfold import Folder
     fn = M.func(GC)
     fl = Flow(fn)
+    # the block that re-centres the atoms must be entered whenever *some* direction is non-periodic
+    cen0 = [c for c in ast.walk(fn) if isinstance(c, ast.Call) and isinstance(c.func, ast.Attribute) and c.func.attr == "center"]
+    if cen0:
+        outer = [t for t in ast.walk(fn) if isinstance(t, ast.If) and "pbc" in norm(t.test) and any(c is cen0[0] for c in ast.walk(t))]
+        if outer:
+            g = outer[0].test          # ast.walk is breadth first: the outermost such If comes first
+            neg = False
+            while isinstance(g, ast.UnaryOp) and isinstance(g.op, ast.Not):
+                neg, g = not neg, g.operand
+            red = None
+            if isinstance(g, ast.Call) and isinstance(g.func, ast.Name) and g.func.id in ("all", "any") and g.args:
+                red, inner = g.func.id, g.args[0]
+            elif isinstance(g, ast.Call) and isinstance(g.func, ast.Attribute) and g.func.attr in ("all", "any") and not g.args:
+                red, inner = g.func.attr, g.func.value
+            elif isinstance(g, ast.Call) and (M.ext_name(GC, g.func) or "") in ("numpy.all", "numpy.any") and g.args:
+                red, inner = (M.ext_name(GC, g.func)).split(".")[-1], g.args[0]
+            if red is not None:
+                inv = isinstance(inner, ast.UnaryOp) and isinstance(inner.op, (ast.Invert, ast.Not))
+                some_nonperiodic = (red == "all" and neg and not inv) or (red == "any" and not neg and inv)
+                if some_nonperiodic:
+                    rep.ok(rid, f"get_clusters: the enlargement block runs whenever some direction is non-periodic (`{norm(outer[0].test)}`)")
+                else:
+                    rep.violation(rid, f"get_clusters: scope of the enlargement `{norm(outer[0].test)}`", "the block that enlarges the cell and re-centres the atoms is entered "
+                                  "only for a subset of the structures with a non-periodic direction (e.g. only for fully finite systems): a slab or stack with pbc (T, T, F) whose "
+                                  "cell does not enclose the atoms along the non-periodic vector keeps atoms outside the cell, which the region search never sees", M.where(GC, outer[0]))
+                    return
     tests = []
     for t in ast.walk(fn):
         if isinstance(t, ast.If) and any(isinstance(s2, ast.Assign) and isinstance(s2.value, ast.Constant) and s2.value.value is True for s2 in t.body) \
